@@ -30,10 +30,18 @@ CLAIMED = {
         technique="complete enumeration of all 2^24 addresses with a hash-set injectivity oracle and an independent block table",
         text="Complete enumeration of all 2^24 addresses through the real tail() (and aircraft_information); registrations are collected in a hash map for injectivity and matched against the address-block table that the harness reads from patterns.json itself. thorough adds all other u32 arguments for totality.",
         note="Trusted: patterns.json as the block table (the property names it); country names are not compared (categories may override them); blocks without a prefix pattern are counted only."),
+    "C10": dict(engine=E2, design="4/C10",
+        technique="exhaustive enumeration of arrival histories through the real deduplication task (real tokio channels, polled step by step), property invariants on every execution",
+        text="Bounded exhaustive history exploration of the real dedup::deduplicate_messages: every arrival history up to length 4-6 (thorough 5-7) over (2-3 decodable frames + an undecodable one) x 2 receivers x a timestamp grid straddling every window edge x window lengths {0,250,450,500} ms, in arbitrary and in non-decreasing time order (3.5 M executions quick, 2.0e8 thorough). Each history is pushed one arrival at a time into real tokio mpsc channels, the real task is polled on the calling thread and its output drained after every arrival, so the step at which each record leaves is observed. Judged per execution: no reception invented/duplicated/attached to another frame, arrival order inside a record, timestamp = first arrival, nothing emitted before its window closed, every decodable reception whose window certainly closed is out, and for non-decreasing stamps same-frame records >= window apart and output in order of first arrival. A list-based reference model is compared as a second opinion (agreement counted, never a verdict).",
+        note="Trusted: timestamps on a grid exact in binary floating point (self-checked); groups still open at end of input need not be emitted; decode_time and wall-clock fields are ignored; channel capacities are pre-sized so the task never blocks on output."),
     "C11": dict(engine=E2, design="4/C11",
         technique="complete enumeration of record kinds x addresses x filter shapes through the real Filters::is_in against the record's own JSON",
         text="Complete enumeration of a finite case space on the real code: every address-carrying downlink format (DF0/4/5/11 with and without interrogator id/16/17 and DF18 with five control fields x six message kinds/20/21 with and without a register) x 8 (thorough 32) addresses x decoded/undecoded x 7 df-filter shapes x 9 aircraft-filter shapes (absent, empty, shown, other, the transmitted parity field, neighbours of the shown address). Filters::is_in is compared with membership of the df and icao24 members of serde_json::to_value(&record). The filter is a pure function of (DF arm, address field, two lists), so covering every arm with every list shape decides it.",
         note="Trusted: frames come from the harness's own bit-level builder (checked: the decoder must accept each); list order/duplicates are not part of the property."),
+    "C12": dict(engine=E2, design="4/C12",
+        technique="exhaustive enumeration of record histories through the real update_snapshot on the real application state; reference table and projection (solo replay) equality",
+        text="Bounded exhaustive history exploration on the real code: all histories up to depth 3 (thorough 4) over 3 aircraft x 33 message kinds (every DF arm and every ADS-B / Comm-B arm of update_snapshot, DF19/DF24 without address), depth 4 (thorough 5) over 12 core kinds and an equal-timestamp variant, with aircraft symmetry reduction; each history is replayed on a fresh Jet1090 through the real snapshot::update_snapshot (tokio mutex, real decoder output). Oracles per history: key set = addresses shown in the records' JSON, count / firstseen / lastseen per aircraft, every held value occurs in one of that aircraft's own records (values are unique per aircraft and step), and the entry equals the entry obtained by replaying that aircraft's records alone.",
+        note="Trusted: aircraft interchangeability (the table code never branches on the address value); positions on BDS 0,5/0,6 records are attached by the harness as decode_position does; store_history and expiry are outside this check."),
     "C16": dict(engine=E2, design="4/C16",
         technique="exhaustive enumeration of a specification grammar and of all short strings through the real parsers; serial equality across forms and processes",
         text="Bounded exhaustive enumeration through the real Source::from_str / Position::from_str / Source::serial: the product scheme x host x port x path x separator x reference (49k strings quick, 115k thorough), every string up to length 4 (thorough 5) over a 12-symbol alphabet of URL/regex metacharacters, every well-formed endpoint (4 schemes x 6 hosts x 6 ports x paths x 9 references) compared with the expected endpoint, reference position and with the serial of each documented TOML table form, every airport ICAO (thorough: and IATA) code of airports.json, and the digest of all serials recomputed in two further processes. Totality is judged by catch_unwind with the panic site recorded.",
